@@ -122,9 +122,43 @@ pub fn fixed_corpus() -> Vec<(String, crate::esref::Flags)> {
         ("[]|[^]", ""),
         ("x*", ""),
         ("", ""),
+        ("^\\d{6,8}?$", ""),
+        ("(a{6,7}?)b", ""),
+        ("x*?y{6,}", ""),
+        ("^\\d{1,3}?(\\d{0,2})$", ""),
+        ("(?<=a{6,7}?)b", ""),
+        ("[ab]{6,8}c", "i"),
+        ("(?:ab){6,7}?c", ""),
     ];
     for (p, fl) in pats {
         v.push((p.to_string(), f(fl)));
+    }
+    v
+}
+
+/// Enumerated first-position shapes: what a pattern starts with decides the start predicate
+/// (anchored shortcut, literal prefix, byte sets, nothing).
+pub fn first_position_shapes() -> Vec<(String, Flags)> {
+    let heads = ["^", "(?:^)", "(^)", "(?=^)", "(?<=^)", "(?:^a)", "(^a)", "(?:^|a)", "(?:^a|^b)", "(?:^a|b)", "(?:a|^b)", "\\b", "", "(?:)", "a", "[ab]", ".", "(?!a)", "(?<!a)", "ab", "(?:ab|ac)", "(?:ab|cd)", "(?:k|s)", "é", "[^a]", "\\1", "(a)?", "(?:a|)"];
+    let quants = ["", "?", "*", "+", "{0}", "{1}", "{2}", "??", "*?", "{0,1}"];
+    let tails = ["a", "b", "[ab]", "", "$", "(b)"];
+    let mut v = Vec::new();
+    for h in heads {
+        for q in quants {
+            // ^ $ \b and lookbehinds cannot be quantified directly: wrap them
+            let quantified = if q.is_empty() {
+                h.to_string()
+            } else if h.is_empty() {
+                continue;
+            } else {
+                format!("(?:{}){}", h, q)
+            };
+            for t in tails {
+                for fl in ["", "m", "iu"] {
+                    v.push((format!("{}{}", quantified, t), Flags::from_str(fl)));
+                }
+            }
+        }
     }
     v
 }
@@ -133,6 +167,7 @@ fn tweak_undo(g: &mut GenCfg, rng: &mut Rng) {
     // stress the undo log: groups in loops in alternations in lookarounds, backreferences
     g.max_depth = rng.range(3, 5);
     g.long_literals = rng.chance(1, 4);
+    g.big_counts = rng.chance(1, 2);
 }
 
 fn tweak_opt(g: &mut GenCfg, rng: &mut Rng) {
@@ -202,6 +237,7 @@ impl PCheck for C03 {
         "c03"
     }
     fn prepare(&self, pat: &[u32], flags: Flags, rep: Option<&mut Report>) -> Prep<Self::Prepared> {
+        let flags = Flags { n: false, ..flags };
         let a = engine::compile(pat, flags, false);
         let b = engine::compile(pat, flags, true);
         let (ra, rb) = match (a, b) {
@@ -334,7 +370,10 @@ impl PCheck for C04 {
 }
 
 pub fn run_c04(cfg: &Cfg, rep: &mut Report) {
-    let spec = stream_spec(cfg, 15_000, 400_000, 3, 4, tweak_first);
+    let mut spec = stream_spec(cfg, 15_000, 400_000, 3, 4, tweak_first);
+    let shapes = first_position_shapes();
+    rep.add("first_position_shapes", shapes.len() as u64);
+    spec.fixed.extend(shapes);
     let opts = DriveOpts { budget: if cfg.quick() { 150 } else { 400 }, n_long: 6, n_plant: 4, ascii_only: false, sample_every: 299 };
     drive(&C04, cfg, rep, &spec, &opts);
 }
